@@ -1544,7 +1544,43 @@ fn c07_case(rep: &mut Report, w: &Watch, a: &Runtype, b: &Runtype, defs: &[Named
                         // attribution of a lost value: is it, read structurally, also a value of ANOTHER
                         // member of the left operand's union (the recorded defect: a later member is kept
                         // only outside the earlier ones and then dropped), or is nothing covering it?
-                        let cause = if want {
+                        let cause = if !want {
+                            // a gained value: is the member of the left operand it belongs to assignable
+                            // to the excluded type as a whole (then Exclude has to drop the member - also
+                            // in TypeScript's member-by-member reading), or only partly covered by it
+                            // (the recorded defect: the member is handed on whole)?
+                            let mut members = vec![];
+                            top_union_members(a, &dm, &mut members, 0);
+                            // (every member the value is an exact value of: if one of them is only
+                            // partly covered, handing that one on whole explains the value)
+                            let owners: Vec<Runtype> = members.iter().filter(|m| matches!(rm::rt_exact(m, &dm, &v), Ok(true))).cloned().collect();
+                            if owners.is_empty() {
+                                "|cause:undecided"
+                            } else {
+                                let refs4: Vec<&NamedSchema> = vals_defs.iter().collect();
+                                let mut all_assignable = true;
+                                let mut undecided = false;
+                                for m in &owners {
+                                    let mut fresh = SemTypeContext::new();
+                                    match guard(|| {
+                                        let ms = m.to_sem_type(&refs4, &mut fresh)?;
+                                        let bs = b.to_sem_type(&refs4, &mut fresh)?;
+                                        ms.is_subtype(&bs, &mut fresh)
+                                    }) {
+                                        Eng::Ok(true) => {}
+                                        Eng::Ok(false) => all_assignable = false,
+                                        _ => undecided = true,
+                                    }
+                                }
+                                if !all_assignable {
+                                    "|cause:member-partly-covered"
+                                } else if undecided {
+                                    "|cause:undecided"
+                                } else {
+                                    "|cause:member-assignable-to-the-excluded-type"
+                                }
+                            }
+                        } else if want {
                             let mut members = vec![];
                             top_union_members(a, &dm, &mut members, 0);
                             let covering = members.iter().filter(|m| !matches!(rm::rt_exact(m, &dm, &v), Ok(true)) && matches!(rm::rt_open(m, &dm, &v), Ok(true))).count();
